@@ -214,3 +214,25 @@ Definition batch_verdicts (cfg : config) (batch : list job) : list verdict :=
 
 Definition cli_exit (cfg : config) (batch : list job) : N :=
   if existsb is_fail (batch_verdicts cfg batch) then 1%N else 0%N.
+
+(* ---- RunT over several scripts with a T that runs the subtests one after the other.  The
+   context is shared: refCount starts at the number of files, every subtest decrements it when
+   it ends and the one that brings it to 0 cancels the context (testscript.go RunT).  [refc] is
+   the count and [cancelled] the state of the context when the next script starts. *)
+Definition cfg_ctx (cfg : config) (cancelled : bool) : config :=
+  {| c_continue := c_continue cfg; c_explicit_exec := c_explicit_exec cfg; c_unique := c_unique cfg;
+     c_update := c_update cfg; c_host_conds := c_host_conds cfg; c_custom_cond := c_custom_cond cfg;
+     c_cmds := c_cmds cfg; c_main_cmds := c_main_cmds cfg; c_helper := c_helper cfg;
+     c_helper_dir := c_helper_dir cfg; c_watch := c_watch cfg; c_deadline := c_deadline cfg;
+     c_cancelled := cancelled |}.
+
+Fixpoint seq_verdicts (cfg : config) (refc : nat) (cancelled : bool) (jobs : list job) : list verdict :=
+  match jobs with
+  | [] => []
+  | j :: r =>
+      r_verdict (run_file (cfg_ctx cfg cancelled) (j_work j) (j_env j) (j_file j))
+      :: seq_verdicts cfg (pred refc) (cancelled || Nat.eqb (pred refc) 0) r
+  end.
+
+Definition runT_seq (cfg : config) (jobs : list job) : list verdict :=
+  seq_verdicts cfg (length jobs) false jobs.
